@@ -75,6 +75,15 @@ func sameHV(a, b Req, key string) bool {
 	return true
 }
 
+// presetVaryPool: Vary values an outer handler may have set: unrelated names,
+// the middleware's own names (any case), and near-misses of them (names that
+// merely contain "Origin" or an Access-Control-Request-* name as a substring,
+// alone or next to other names on the same line).
+var presetVaryPool = []string{"before", "Accept-Encoding", "Cookie, X-Thing", "Origin", "origin", "X-Original-Host", "X-Forwarded-Origin", "Origin-Agent-Cluster", "Sec-Origin-Policy",
+	"X-Origin", "Access-Control-Request-Methods", "X-Access-Control-Request-Headers", "Access-Control-Request-Method", "Access-Control-Request-Headers, Origin",
+	"Access-Control-Request-Headers, Access-Control-Request-Method, Access-Control-Request-Private-Network, Origin", "Access-Control-Request-Private-Networks", "Accept, Original-Url",
+	"Accept-Encoding, Origin", "X-Origin-Region", "Accept-Language, X-Origin-Region, Cookie", "Origin, Accept-Encoding"}
+
 func c10Gen(t *rapid.T) C10Case {
 	c := C10Case{Cfg: genValidCfg(t), Debug: chance(t, "debug", 40)}
 	p := poolsOf(c.Cfg)
@@ -84,15 +93,12 @@ func c10Gen(t *rapid.T) C10Case {
 	// Vary values set earlier in the chain: unrelated names, the middleware's
 	// own names (any case), and near-misses of them (names that merely
 	// contain "Origin" or an Access-Control-Request-* name as a substring)
-	varyPool := []string{"before", "Accept-Encoding", "Cookie, X-Thing", "Origin", "origin", "X-Original-Host", "X-Forwarded-Origin", "Origin-Agent-Cluster", "Sec-Origin-Policy",
-		"X-Origin", "Access-Control-Request-Methods", "X-Access-Control-Request-Headers", "Access-Control-Request-Method", "Access-Control-Request-Headers, Origin",
-		"Access-Control-Request-Headers, Access-Control-Request-Method, Access-Control-Request-Private-Network, Origin", "Access-Control-Request-Private-Networks", "Accept, Original-Url"}
 	switch k := uniform(t, "preset", 100); {
 	case k < 40:
 	case k < 75:
-		c.Preset = []HV{{hVary, Vals(pick(t, "vary1", varyPool))}}
+		c.Preset = []HV{{hVary, Vals(pick(t, "vary1", presetVaryPool))}}
 	case k < 88:
-		c.Preset = []HV{{hVary, Vals(pick(t, "vary1", varyPool), pick(t, "vary2", varyPool))}, {"X-Pre", Vals("1")}}
+		c.Preset = []HV{{hVary, Vals(pick(t, "vary1", presetVaryPool), pick(t, "vary2", presetVaryPool))}, {"X-Pre", Vals("1")}}
 	case k < 95:
 		c.Preset = []HV{{"X-Pre", Vals("1", "2")}}
 	default:
